@@ -363,6 +363,19 @@ def o_bech32_all_single(case):
             n += 1
             if bech32m.decode(hrp, t) != (None, None) or bech32m.bech32_decode(t) != (None, None, None):
                 _bad("bech32:corruption-accepted", "single substitution accepted: %r (original %r)" % (t, s))
+    # pairs of adjacent positions in the last seven symbols (the checksum and the symbol before it): the first becomes any
+    # other alphabet symbol, the second a character OUTSIDE the alphabet (the four letters Bech32 leaves out, a digit-like
+    # '1', punctuation, or the same letter in the other case).  A string holding a foreign character is never valid,
+    # whatever else changes with it.
+    foreign = ["b", "i", "o", "1", "-", "_", " "]
+    for i in range(max(sep + 1, len(s) - 7), len(s) - 1):
+        for c in refenc.CHARSET:
+            for f in foreign + [s[i + 1].upper() if s[i + 1].isalpha() else "B"]:
+                t = s[:i] + c + f + s[i + 2:]
+                n += 1
+                if bech32m.decode(hrp, t) != (None, None) or bech32m.bech32_decode(t) != (None, None, None):
+                    _bad("bech32:foreign-character-accepted", "%r accepted (original %r: symbol %d replaced by %r, symbol %d by the foreign %r)" % (
+                        t, s, i - sep, c, i + 1 - sep, f))
     return ["strings", "substitutions=%d" % (n // 500 * 500)]
 
 
@@ -526,7 +539,7 @@ SUBCHECKS = [
              nontrivial=lambda c, l: not any(x.startswith("skip") for x in l),
              rule="valid segwit addresses with 1-4 substituted positions (data part: other charset symbols; anywhere: any printable char); must be refused by decode(hrp,.) and, for data-only edits, by bech32_decode"),
     SubCheck("bech32_all_single_subst", o_bech32_all_single, strategy=valid_triples, budget=(160, 8000),
-             rule="for a generated valid address, every single-symbol substitution in its data part (exhaustive per string)"),
+             rule="for a generated valid address, every single-symbol substitution in its data part, and every (alphabet symbol, foreign character) pair on adjacent positions of its last seven symbols (exhaustive per string)"),
     SubCheck("bech32_invalid_classes", o_bech32_invalid, strategy=s_bech32_invalid, budget=(4000, 200000),
              nontrivial=lambda c, l: not any(x.startswith("skip") for x in l),
              rule="correctly checksummed strings with wrong constant for the version, non-zero or >4-bit padding, mixed case, forbidden program length, version > 16, empty data"),
